@@ -198,6 +198,13 @@ func TreeJSON(s reflect.Value) map[string]interface{} {
 			}
 		case FLeafList:
 			if !IsSet(f) {
+				if !f.IsNil() {
+					// an allocated, empty leaf-list is written as an explicit empty array: "this
+					// leaf-list has no elements", which is not the same document as not mentioning it
+					for _, a := range alts {
+						put(a, []interface{}{})
+					}
+				}
 				continue
 			}
 			var arr []interface{}
@@ -248,6 +255,16 @@ func TreeJSON(s reflect.Value) map[string]interface{} {
 			}
 			put(alts[0], arr)
 		}
+	}
+	return out
+}
+
+// FieldPaths gives the data-tree paths (every alternative of the path tag) of a struct field
+// whose struct sits at base.
+func FieldPaths(sf reflect.StructField, base string) []string {
+	var out []string
+	for _, a := range splitAlts(sf.Tag.Get("path")) {
+		out = append(out, base+"/"+a)
 	}
 	return out
 }
